@@ -204,12 +204,31 @@ func (u *Universe) zeroOfSort(s string) string {
 func (f *Frame) callStatic(callee *ssa.Function, args []Val, reach string, h *Heap, pos token.Pos, rt types.Type) (Val, string) {
 	key := funcKey(callee)
 	if f.top && f.ct != nil {
-		for _, cl := range f.en.activeClauses(f.ct.AtCall[callee.Name()], f.ct) {
+		// "callee#k" addresses the k-th call site of the callee only (in generation order)
+		if f.callOrd == nil {
+			f.callOrd = map[string]int{}
+		}
+		f.callOrd[callee.Name()]++
+		cls := append([]Clause{}, f.ct.AtCall[callee.Name()]...)
+		cls = append(cls, f.ct.AtCall[fmt.Sprintf("%s#%d", callee.Name(), f.callOrd[callee.Name()])]...)
+		for _, cl := range f.en.activeClauses(cls, f.ct) {
 			ctx := f.specCtx(h, nil)
 			ctx.locals = true
 			ctx.callArgs = args
 			name := f.vc.siteName("atcall." + clauseName(cl, 0) + "@" + callee.Name())
-			f.vc.oblige(name, "assert", implies(reach, ctx.evalBool(cl.E)), clauseProps(cl, f.ctProps()), f.where(pos), "at the call of "+callee.Name()+": "+cl.Src)
+			goal := ctx.evalBool(cl.E)
+			// after a wide control-flow join (a switch): one obligation per incoming path
+			var paths []string
+			if f.depth == 0 && f.vc.curBlk >= 0 && f.vc.curBlk < len(f.fn.Blocks) && goal != "true" {
+				paths = f.splitConds(f.fn.Blocks[f.vc.curBlk])
+			}
+			if len(paths) > 8 {
+				for pi, pc := range paths {
+					f.vc.oblige(fmt.Sprintf("%s/path#%d", name, pi+1), "assert", implies(and(pc, reach), goal), clauseProps(cl, f.ctProps()), f.where(pos)+" / via "+f.splitWhere[pi], "at the call of "+callee.Name()+": "+cl.Src)
+				}
+				continue
+			}
+			f.vc.oblige(name, "assert", implies(reach, goal), clauseProps(cl, f.ctProps()), f.where(pos), "at the call of "+callee.Name()+": "+cl.Src)
 		}
 	}
 	ct := f.en.cs.Funcs[key]
